@@ -149,6 +149,7 @@ fn large_case(tuple: &SigParams, records: bool, n: usize) -> Case {
 fn main() {
     // a stack overflow / abort in the code under test must become a verdict, not a dead check
     vcore::supervise("C05");
+    vcore::install_log_evaluation(); // logging is part of the environment: log arguments are evaluated as under a real subscriber
     let ctx = Ctx::from_args("C05", "exploration");
     let thorough = !ctx.quick();
 
